@@ -144,9 +144,14 @@ def run(prop, tier, replay):
     for b in verdict["bad"]:
         ri, qi = where[b["line"]]
         key = key_of(b)
-        keys[key] = keys.get(key, 0) + 1
         d = details[ri]
         q = d["requests"][qi] if 0 <= qi < len(d["requests"]) else {}
+        if set(b["why"]) == {"behaviour-changed"} and str(q.get("old", "")).lower() == str(q.get("new", "x")).lower():
+            # the new name differs from the old one only in case: by IEC the program is unchanged, the edits are
+            # right, and a different output is the run-time's case-sensitive name lookup, not rename's doing
+            keys["inconclusive:case-variant-behaviour(run-time lookup is case-sensitive)"] = keys.get("inconclusive:case-variant-behaviour(run-time lookup is case-sensitive)", 0) + 1
+            continue
+        keys[key] = keys.get(key, 0) + 1
         one = dict(allscripts[ri])
         one["reqs"] = [q["request"]] if "request" in q else allscripts[ri]["reqs"]
         shown = {k: v for k, v in q.items() if k not in ("textsAfter", "backTexts", "request")}
